@@ -47,3 +47,13 @@ __CPROVER_ensures((RET != 0) == (OLDREM(rs) >= 65))
 __CPROVER_ensures(RET != 0 ==> R(rs)->m_Pos == OLDPOS(rs) + 65)
 __CPROVER_ensures(RET != 0 ==> outb[k] == R(rs)->m_Buffer[OLDPOS(rs) + k])
 __CPROVER_ensures((RET != 0 && k < 24) ==> outb[65 + k] == (use_precalc ? hashes[24 + k] : 0));
+
+/* KeystoneContainer: operator== is equality of BOTH keystones (length and bytes); encoding = two single-byte-length values */
+#define VEQ(a, b, o) ((a)[o] == (b)[o] && ((a)[o] < 1 || (a)[(o) + 1] == (b)[(o) + 1]) && ((a)[o] < 2 || (a)[(o) + 2] == (b)[(o) + 2]) && \
+                      ((a)[o] < 3 || (a)[(o) + 3] == (b)[(o) + 3]) && ((a)[o] < 4 || (a)[(o) + 4] == (b)[(o) + 4]))
+int w_ksc_c(const uint8_t* a, const uint8_t* b, size_t* enc)
+__CPROVER_requires(__CPROVER_is_fresh(a, 10) && __CPROVER_is_fresh(b, 10) && __CPROVER_is_fresh(enc, sizeof(size_t)))
+__CPROVER_requires(a[0] <= 4 && a[5] <= 4 && b[0] <= 4 && b[5] <= 4)
+__CPROVER_assigns(*enc)
+__CPROVER_ensures((RET != 0) == (VEQ(a, b, 0) && VEQ(a, b, 5)))
+__CPROVER_ensures(*enc == 2 + (size_t)a[0] + (size_t)a[5]);
